@@ -164,6 +164,30 @@ example : Val.lookup "cache" [("db", .map [("condition", .str "service_healthy")
     [("db", .map [("condition", .str "service_healthy"), ("required", .bool true)]), ("cache", startedRequired)]
     (by rfl) "cache" (by simp) (by decide)
 
+/-- service `networks`: first document `networks: [names]`, second `networks: {k: v}`: whenever the pipeline succeeds,
+every other listed network is still attached with no options (null) -/
+theorem twoDocs_networks_refine_one (f : Val → Val → TPath → Merge.Out Val) (names : List String) (hnd : names.Nodup)
+    (k : String) (v : Val) (p : TPath) (m : Val.KVs)
+    (h : twoDocs transformServiceNetworks (Merge.mergeKVsWith f) .networks (.seq (names.map Val.str)) (.map [(k, v)]) p = .ok (.map m)) :
+    ∀ k' ∈ names, k' ≠ k → Val.lookup k' m = some .null := by
+  intro k' hk' hne
+  simp only [twoDocs, transformServiceNetworks_short_eq_long names hnd, bindOut, Merge.specialStep, Merge.convMerge,
+    Merge.intoMap, Merge.Out.bind] at h
+  cases hm : Merge.mergeKVsWith f (names.map (fun n => (n, Val.null))) [(k, v)] p with
+  | ok r =>
+    rw [hm] at h
+    simp only [liftM, transformServiceNetworks, Out.ok.injEq, Val.map.injEq] at h
+    subst h
+    obtain ⟨y, hy⟩ := mergeOne_shape f _ r k v p hm
+    rw [hy, Merge.lookup_insert_ne hne]
+    exact lookup_long names k' hk' .null
+  | err e => rw [hm] at h; simp [liftM] at h
+  | panic e => rw [hm] at h; simp [liftM] at h
+
+example : Val.lookup "n2" [("n1", .map [("aliases", .seq [.str "a"])]), ("n2", .null)] = some .null :=
+  twoDocs_networks_refine_one (Merge.mergeYaml 8) ["n1", "n2"] (by decide) "n1" (.map [("aliases", .seq [.str "a"])])
+    ["services", "web", "networks"] [("n1", .map [("aliases", .seq [.str "a"])]), ("n2", .null)] (by rfl) "n2" (by simp) (by decide)
+
 /-- non-vacuity and the seeded scenario on the model: `[db, cache]` then `{db: {condition: service_healthy}}` — only `db` changes -/
 example :
     twoDocs transformDependsOn (Merge.mergeKVs 8) .dependsOn (.seq [.str "db", .str "cache"])
